@@ -205,6 +205,7 @@ def extract(graph, validate=True):
 MAX_FLATS = 48     # upper bound of the number of flat nodes a selection of a generated suite can have
 OS_POOL = {"vm1": ["Aos", "Bos"], "vm2": ["Cos", "Dos"], "vm3": ["Eos", "Fos"]}
 MAIN_SETS = ["all", "nonleaves", "leaves", "normal", "minimal"]
+MAIN_SETS_ALL = ["normal.nongui", "normal.gui", "nonleaves", "minimal", "leaves", "normal", "all"]   # longest first
 
 
 def gen_suite(rng, size="small"):
